@@ -72,7 +72,10 @@ class Unit:
     def real_fn(self, mod, impl, name, contract, *, vis=None, tail=None, ghost=(), invariants=None,
                 before_returns=None, ret='ret', rename=None, body_edit=None, subst=(), sig_edit=None, attrs=''):
         """emit the real function with `contract` woven in. ghost: list of (anchor_re, text, where, occurrence)."""
+        n_sh = len(self.src.shadowed)
         sig, body = self.slice_fn(mod, impl, name)
+        if len(self.src.shadowed) > n_sh:      # R24: the inherent namesake was sliced instead of the trait method (method resolution)
+            self.rewrites['R24'] = self.rewrites.get('R24', 0) + 1
         for a, b in subst:     # R6: associated types / trait paths -> the unit's concrete names
             if a in sig or a in body:
                 self.rewrites['R6'] = self.rewrites.get('R6', 0) + sig.count(a) + body.count(a)
